@@ -345,9 +345,74 @@ def run_multibase(ctx, case):
     ctx.case(case, len(uses) >= 2 and uses[0].startswith("P"))
 
 
+# ---------------------------------------------------------------------------
+# first use of TWO DIFFERENT lazily bootstrapped classes by two threads: whatever the library shares between classes
+# (process-wide caches, module-level state) must not let one bootstrap see the other's half-done work
+
+TWO_FILES = ("utils/naming.py", "types/attr.py")
+_TWO_COUNTER = [0]
+
+
+def _two_classes(eager, attr):
+    from typing import Dict, List
+
+    from spec_classes import spec_class
+
+    def mk(name, extra):
+        ns = {"__annotations__": {attr: List[int], extra: Dict[str, int], "n": int}, attr: [], extra: {}, "n": 0, "__module__": "vf.generated"}
+        return spec_class(bootstrap=eager)(type(name, (), ns))
+
+    return mk("A", attr + "_of_a"), mk("B", attr + "_of_b")
+
+
+def _two_describe(classes, attr):
+    out = []
+    for c in classes:
+        md = c.__spec_class__
+        out.append((c.__name__, sorted(n.replace(attr, "<attr>") for n in vars(c) if n.split("_")[0] in ("with", "update", "transform", "reset", "without")),
+                    sorted((k.replace(attr, "<attr>"), str(a.item_name).replace(attr, "<attr>")) for k, a in md.attrs.items())))
+    return out
+
+
+def run_twoclass(ctx, case, record=False):
+    # attribute names that have no singular form and that nobody has asked about before (a fresh pair per run: the eager
+    # reference must not warm anything up for the lazy classes)
+    _TWO_COUNTER[0] += 1
+    ref_attr, attr = f"payload_{_TWO_COUNTER[0]}_e", f"payload_{_TWO_COUNTER[0]}_x"
+    want = _two_describe(_two_classes(True, ref_attr), ref_attr)
+    if not PATCH.patched:
+        PATCH.install()
+    sched = Scheduler(case["schedule"], files=TWO_FILES, timeout=30.0)
+    sched.record = record
+    PATCH.current = sched
+    restore = PATCH.swap_live_locks(sched)
+    try:
+        A, B = _two_classes(False, attr)
+        try:
+            threads = sched.run([lambda: A().n, lambda: B().n])
+        except HarnessStall as e:
+            raise HarnessError(f"C19 scheduler: {e}")
+    finally:
+        PATCH.current = None
+        restore()
+    for t in threads:
+        if t.error is not None:
+            ctx.fail(f"twoclass|thread_error:{type(t.error).__name__}", case, f"thread {t.idx} raised {t.error!r}; schedule {case['schedule']}; switches {sched.switches}")
+            return None
+    got = _two_describe((A, B), attr)
+    if got != want:
+        ctx.fail("twoclass|description", case, f"two classes first used by two threads differ from their eager twins: {got!r} vs {want!r}; schedule {case['schedule']}; switches {sched.switches}")
+        return None
+    ctx.count("twoclass_runs")
+    ctx.case(case, bool(sched.switches))
+    return sched
+
+
 def run_case(ctx, case):
     if case["kind"] == "multibase":
         return run_multibase(ctx, case)
+    if case["kind"] == "twoclass":
+        return run_twoclass(ctx, case)
     if case["kind"] == "seq":
         run_seq(ctx, case)
     else:
@@ -358,7 +423,7 @@ BOUNDS = {"quick": dict(seq=120, conc=50, double=False), "thorough": dict(seq=15
 
 
 def units(tier, seed):
-    out = [["seq", i] for i in range(4)] + [["conc_hyp", i] for i in range(6)] + [["multibase", i, 4] for i in range(4)]
+    out = [["seq", i] for i in range(4)] + [["conc_hyp", i] for i in range(6)] + [["multibase", i, 4] for i in range(4)] + [["twoclass", i, 2] for i in range(2)]
     for si in range(len(SHAPES)):
         for shard in range(4):
             out.append(["single", si, shard, 4])
@@ -393,6 +458,18 @@ def run_unit(ctx, unit):
                         continue
                     run_multibase(ctx, {"kind": "multibase", "config": cfg, "uses": list(uses)})
         ctx.count("multibase_shards_completed")
+    elif kind == "twoclass":
+        from vf.runner import Ctx
+
+        probe = run_twoclass(Ctx("C19", "count", 0), {"kind": "twoclass", "schedule": []}, record=True)
+        total = probe.step if probe else 0
+        for s in range(1, total + 1):
+            if s % unit[2] != unit[1]:
+                continue
+            run_twoclass(ctx, {"kind": "twoclass", "schedule": [[s, 1]]})
+            if ctx.failures:
+                return
+        ctx.count("twoclass_shards_completed")
     elif kind == "single":
         wd, triggers = SHAPES[unit[1]]
         total = _count(wd, triggers, False)
